@@ -187,17 +187,17 @@ Section Copy.
 End Copy.
 
 (* the machine, default callbacks: the output is an isomorphic copy of the input graph *)
-Theorem machine_default_copy : forall id k items,
+Theorem machine_default_copy : forall rr id k items,
   let root := ONode id k items in
   NoDup (ids root) -> wf_keys root -> no_sets root -> imm_backref [] root = false ->
   exists v m lg,
-    remap None (collect_defs root) root = Done v m lg
+    remap None rr (collect_defs root) root = Done v m lg
     /\ oref_of v = RObj id /\ t_get m id = Some v
     /\ forall j kj itemsj, In (j, ONode j kj itemsj) (collect_defs root) ->
          exists items', t_get m j = Some (ONode j kj items') /\ shal items' = shal itemsj.
 Proof.
-  intros id k items root Hnd Hw Hs Hb.
-  rewrite machine_refines_spec by assumption. unfold spec_remap, srb_root, root.
+  intros rr id k items root Hnd Hw Hs Hb.
+  pose proof (machine_refines_spec None rr root Hb) as HM. cbn [lift] in HM. rewrite HM. clear HM. unfold spec_remap, srb_root, root.
   destruct (srb spec_blank None (collect_defs (ONode id k items)) true [] KNone (ONode id k items) [] [])
     as [[v m] lg] eqn:E.
   exists v, m, lg. split; [reflexivity|].
